@@ -10,6 +10,8 @@
 #[cfg(feature = "std")]
 use core::cell::RefCell;
 
+#[cfg(feature = "verif-hooks")]
+use crate::verif;
 use crate::{
     i128_div_mod_floor, i128_shifted_div_mod_floor, i256_div_mod_floor,
     ten_pow,
@@ -110,10 +112,25 @@ fn round_quot(
     }
     // here: |divisor| >= 2 => rem <= |divident| / 2,
     // therefor it's safe to use rem << 1
+    #[cfg(feature = "verif-hooks")]
+    if mode.is_none() {
+        verif::hit(verif::RQ_MODE_DEFAULT);
+    }
     let mode = match mode {
         None => RoundingMode::default(),
         Some(mode) => mode,
     };
+    #[cfg(feature = "verif-hooks")]
+    {
+        verif::hit(verif::RQ_INEXACT);
+        verif::mode_read(mode);
+        if rem << 1 == divisor {
+            verif::hit(verif::RQ_TIE);
+        }
+        if quot == i128::MAX {
+            verif::hit(verif::RQ_OVERFLOW);
+        }
+    }
     match mode {
         RoundingMode::Round05Up => {
             // Round down unless last digit is 0 or 5:
